@@ -313,6 +313,9 @@ def c04_annotations(run, v1, ed):
                 created[start + 1] = ("SymAddrConst", ("L2",), 0)
             elif pn == "callg":
                 created[start + 1] = ("SymAddrConst", ("g",), 0)
+            elif pn == "twocalls":
+                created[start + 1] = ("SymAddrConst", ("g",), 0)
+                created[start + 7] = ("SymAddrConst", ("g",), 0)
             elif pn == "symexpr":
                 created[start + 3] = ("SymAddrConst", ("L2",), 0)
             elif pn == "symexprimm":
